@@ -756,6 +756,10 @@ class Database(SQLiteMixin):
         for txi in tx.inputs:
             if txi.txo_ref.txo is not None:
                 txo = txi.txo_ref.txo
+                try:
+                    txo.script.template
+                except ValueError:
+                    continue  # spent output of a script kind we have no template for: never ours
                 if txo.has_address and txo.get_address(self.ledger) == address:
                     is_my_input = True
                     conn.execute(*self._insert_sql("txi", {
@@ -766,6 +770,10 @@ class Database(SQLiteMixin):
                     }, ignore_duplicate=True)).fetchall()
 
         for txo in tx.outputs:
+            try:
+                txo.script.template
+            except ValueError:
+                continue  # third-party output of a script kind we have no template for: never ours
             if txo.script.is_pay_pubkey_hash and (txo.pubkey_hash == txhash or is_my_input):
                 conn.execute(*self._insert_sql(
                     "txo", self.txo_to_row(tx, txo), ignore_duplicate=True
